@@ -4,11 +4,12 @@ use std::path::Path;
 
 use seglog::FlushedOffset;
 
-use super::BucketSegmentHeader;
+use super::{BucketSegmentHeader, BucketSegmentReader, Record};
 use crate::bucket::segment::format::{ConfirmationCount, RawCommit, RawEvent};
 use crate::bucket::segment::{BINCODE_CONFIG, CONFIRMATION_HEADER_SIZE, SEGMENT_HEADER_SIZE};
 use crate::bucket::{BucketId, BucketSegmentId, SegmentId, SegmentKind};
 use crate::error::WriteError;
+use crate::id::get_uuid_flag;
 
 #[derive(Debug)]
 pub struct BucketSegmentWriter {
@@ -45,6 +46,7 @@ impl BucketSegmentWriter {
         segment_size: usize,
         compression: bool,
     ) -> Result<Self, WriteError> {
+        let path = path.as_ref();
         let mut writer =
             seglog::write::Writer::open(path, segment_size, SEGMENT_HEADER_SIZE as u64)?;
         if compression {
@@ -53,7 +55,32 @@ impl BucketSegmentWriter {
 
         BucketSegmentHeader::load_from_file(writer.file())?.validate()?;
 
+        // A crash can leave the events of a transaction at the end of the segment without
+        // their commit record. Drop them, so that they are neither indexed as stored events
+        // nor buried in the middle of the segment by the appends that follow.
+        let committed_end = Self::committed_end(path, writer.flushed_offset())?;
+        if committed_end < writer.write_offset() {
+            writer.set_len(committed_end)?;
+        }
+
         Ok(BucketSegmentWriter { writer })
+    }
+
+    /// Offset right after the last record that completes a transaction (a single event or a
+    /// commit record).
+    fn committed_end(path: &Path, flushed_offset: FlushedOffset) -> Result<u64, WriteError> {
+        let mut reader = BucketSegmentReader::open(path, Some(flushed_offset))?;
+        let mut iter = reader.iter();
+        let mut committed_end = SEGMENT_HEADER_SIZE as u64;
+        while let Some(record) = iter.next_record()? {
+            match &record {
+                Record::Event(event) if !get_uuid_flag(&event.transaction_id) => {}
+                Record::Event(_) | Record::Commit(_) => {
+                    committed_end = record.offset() + record.len();
+                }
+            }
+        }
+        Ok(committed_end)
     }
 
     pub fn latest(
